@@ -124,6 +124,8 @@ def run(run):
     w3(run)
     # ---------------- W4 blanks at the end of a row are never inside a quoted region
     w4(run, 5)
+    # ---------------- W5 where the legend starts does not depend on what follows the marker on its line
+    w5(run)
     run.assume("str::lines splits on \\n and removes one trailing \\r per line (std documentation)")
 
 
@@ -137,6 +139,21 @@ def witness(header_trail, seps, final, nl):
     parts = ["%s = {%s}" % (n, v) for n, v in ENTRIES]
     s += parts[0] + seps[0] + nl + parts[1] + seps[1] + nl + parts[2] + final.replace("\n", nl)
     return s
+
+
+def w5(run):
+    """W5 [N]: W3 decides that the legend *parser* is blind to line endings and trailing blanks; that only helps if the step
+    before it - finding the legend - does not look at them either.  `CellBuffer::from(&str)` locates the legend with
+    `input.find("# Legend:")` and hands everything from there to the parser, keeping `input[..loc]` as the drawing exactly
+    when the parser accepts (same decision as C16.L2, evaluated here under C17: a header test of its own - "the marker must
+    stand alone on its line" with a home-made notion of blank - is reported)."""
+    from .c16 import l2_paths, l2_shape
+    prog = run.prog
+    cf = prog.method("from", r"cell_buffer::CellBuffer$", r"From<&str>")
+    if not cf:
+        run.missing("C17.W5", "From<&str> for CellBuffer")
+        return
+    l2_paths(run, cf, "C17.W5") or l2_shape(run, cf, "C17.W5")
 
 
 def w4(run, maxlen):
